@@ -1,0 +1,14 @@
+//go:build verif
+
+// Contracts for package crypto/secp256r1 (comment-only; read by /verif/cmd/govc).
+package secp256r1
+
+// low-S rule (C17): s is "normalized" iff it does not exceed half the group order
+//@ func normalizedS props C17
+//@   ensures result == (bigval(s) <= bigval(secp256r1HalfOrder))
+
+// Verify (C17): no signature whose S component (the last 32 bytes, big endian) lies in the upper
+// half of the group order verifies -- so of the two encodings (r, s) and (r, n-s) of an ECDSA
+// signature at most one is accepted.  (The curve arithmetic itself is crypto/ecdsa's.)
+//@ func Verify props C17
+//@   ensures result ==> bebytes(sig[32:64]) <= bigval(secp256r1HalfOrder)
